@@ -26,7 +26,7 @@ RULE = ('One case = generated chart whose guards and contract conditions are pro
 ASSUMPTIONS = ['idle() inside the post-conditions/invariants of the transition being fired is accepted with either reading '
                '(stamp before or after that firing) - the statement does not fix it',
                'dyadic clock values make float arithmetic exact (W10)']
-REQUIRED_COUNTERS = ['selection_under_plain_time_guards_cases', 'steps_checked', 'predicates_checked', 'predicates_at_exact_boundary', 'steps_with_clock_moved_inside',
+REQUIRED_COUNTERS = ['cases_with_ticking_clock', 'selection_under_plain_time_guards_cases', 'steps_checked', 'predicates_checked', 'predicates_at_exact_boundary', 'steps_with_clock_moved_inside',
                      'time_reads_checked', 'idle_after_internal_transition', 'guard_predicates', 'contract_predicates',
                      'multi_transition_steps']
 TIERS = dict(quick=dict(steps=40, gen=dict(max_states=10, max_depth=4, max_trans=14)),
@@ -113,10 +113,34 @@ def run_case(acc, rnd, tier, case):
     it = None
 
     def CLK(dt):
-        it.clock.time += dt
+        if ticking:
+            it.clock.time = it.clock._now + dt
+        else:
+            it.clock.time += dt
         clock_moves.append(dt)
         log.append(('C', dt))
-    it = Interpreter(sc, initial_context=pr.context(T=Tprobe, CLK=CLK))
+    ticking = rnd.random() < 0.25
+    clock = None
+    if ticking:
+        from sismic.clock import Clock
+
+        class TickingClock(Clock):
+            """A legitimate clock whose value grows with every reading (like UtcClock or a started SimulatedClock)."""
+
+            def __init__(self):
+                self._now = 0.0
+
+            @property
+            def time(self):
+                self._now += 0.125
+                return self._now
+
+            @time.setter
+            def time(self, v):
+                self._now = v
+        clock = TickingClock()
+        acc.count('cases_with_ticking_clock')
+    it = Interpreter(sc, initial_context=pr.context(T=Tprobe, CLK=CLK), clock=clock)
     it.attach(pr.listener())
     it.attach(lambda m: log.append(('IT', m.name, it.time)))       # what Interpreter.time shows while a meta-event is delivered
     r = Runner(it, tmap, log=log)
@@ -127,7 +151,10 @@ def run_case(acc, rnd, tier, case):
     last_time = it.time
     for op in script:
         if op[0] != 'step':
-            r.apply(op)
+            if ticking and op[0] == 'clock':
+                it.clock.time = it.clock._now + op[1]
+            else:
+                r.apply(op)
             acc.count('time_reads_checked')
             if it.time != last_time:
                 acc.violation('C13:interpreter-time-moved-between-steps', 'Interpreter.time changed from %r to %r by %s'
@@ -136,8 +163,12 @@ def run_case(acc, rnd, tier, case):
             continue
         pr.stepno = k
         del clock_moves[:]
-        t0 = it.clock.time
+        t0 = None if ticking else it.clock.time
         o = r.apply(op)
+        if ticking:
+            # the value sampled at the call is not known from outside: everything observed in the step must agree with
+            # Interpreter.time after the call
+            t0 = it.time
         if o[0] == 'raise':
             if isinstance(r.last_error, ContractError):
                 acc.violation('C13:contract-error', 'always-true conditions raised %s' % type(r.last_error).__name__, dict(wit, step=k))
